@@ -11,7 +11,8 @@
   model column  = the reader model (Model/Reader via Rd.step) run on the same history;
   verdict       = the cursor contract (Spec/Cursor, `Cur.step`) evaluated on the IMPLEMENTATION's
                   report, with the cursor itself kept in the driver state; plus error provenance
-                  (`errAllowed`) and, for steady sources / bytes readers, liveness.
+                  (`errAllowed`) and liveness wherever the source's `Credit` demands it (bytes
+                  readers, steady scripts, plain scripts with enough unread entries).
 -/
 import Verif.Base.DrvLoop
 import Verif.Base.Parse
@@ -22,8 +23,8 @@ structure RdSt where
   rd : Option Rd := none
   cur : Cur := Cur.init []
   script : List Resp := []
-  /-- every request that fits into the rest of the stream must succeed (steady source / bytes reader) -/
-  live : Bool := false
+  /-- the source's credit (Spec/Cursor `Credit`): when a request must be served in full -/
+  credit : Credit := ⟨0, 0, false⟩
 
 def errOptStr : Option RErr → String
   | none => "nil"
@@ -98,10 +99,11 @@ def resToRErr : RRes String → Option (RRes RErr)
 
 /-- verdict = `Cur.judge` (Spec/Cursor: cursor contract, then error provenance, then liveness on
     live sources) on the implementation's report; returns the cursor to continue with -/
-def rdVerdict (st : RdSt) (op : ROp) (impl : String) : String × Cur :=
-  if impl.startsWith "PANIC" then ("bad:C04:panic", st.cur) else
+def rdVerdict (st : RdSt) (op : ROp) (impl : String) : String × Cur × Credit :=
+  let cr' := st.credit.after st.cur op
+  if impl.startsWith "PANIC" then ("bad:C04:panic", st.cur, cr') else
   match parseImpl op impl with
-  | none => ("bad:protocol", st.cur)
+  | none => ("bad:protocol", st.cur, cr')
   | some res =>
     let next : Cur := match st.cur.step op res with
       | .ok c' => c'
@@ -109,12 +111,12 @@ def rdVerdict (st : RdSt) (op : ROp) (impl : String) : String × Cur :=
     match resToRErr res with
     | none =>
       (match st.cur.step op res with
-       | .error why => ("bad:C04:" ++ why, next)
-       | .ok _ => ("bad:C04:foreign-error", next))
+       | .error why => ("bad:C04:" ++ why, next, cr')
+       | .ok _ => ("bad:C04:foreign-error", next, cr'))
     | some res' =>
-      match st.cur.judge Facts.maxConsecutiveEmptyReads st.script st.live op res' with
-      | .ok c' => ("ok", c')
-      | .error why => ("bad:C04:" ++ why, next)
+      match st.cur.judge Facts.maxConsecutiveEmptyReads st.script st.credit op res' with
+      | .ok p => ("ok", p.1, p.2)
+      | .error why => ("bad:C04:" ++ why, next, cr')
 
 def rdStep (st : RdSt) (args : List String) (impl : String) : RdSt × String × String :=
   let args := args.filter (fun a => !a.startsWith "#")
@@ -123,14 +125,14 @@ def rdStep (st : RdSt) (args : List String) (impl : String) : RdSt × String × 
     match parseStream hex, parseScript sc with
     | some s, some sc =>
       ({ rd := some (Rd.newDefault ⟨s, sc⟩), cur := Cur.init s, script := sc,
-         live := Steady Facts.maxConsecutiveEmptyReads sc s.length 0 },
+         credit := Credit.init (Steady Facts.maxConsecutiveEmptyReads sc s.length 0) sc },
        "ok", if impl == "ok" then "ok" else "bad:protocol")
     | _, _ => ({}, "bad-op", "na")
   | ["rd", "new", "bytes", hex, cap] =>
     match parseStream hex, cap.toNat? with
     | some s, some cap =>
       if cap < s.length then ({}, "bad-op", "na") else
-      ({ rd := some (Rd.newBytes s cap), cur := Cur.init s, script := [], live := true },
+      ({ rd := some (Rd.newBytes s cap), cur := Cur.init s, script := [], credit := Credit.init true [] },
        "ok", if impl == "ok" then "ok" else "bad:protocol")
     | _, _ => ({}, "bad-op", "na")
   | "rd" :: rest =>
@@ -138,7 +140,7 @@ def rdStep (st : RdSt) (args : List String) (impl : String) : RdSt × String × 
     | some r, some op =>
       let m := r.step op
       let v := rdVerdict st op impl
-      ({ st with rd := some m.2, cur := v.2 }, resStr m.1, v.1)
+      ({ st with rd := some m.2, cur := v.2.1, credit := v.2.2 }, resStr m.1, v.1)
     | _, _ => (st, "bad-op", "na")
   | _ => (st, "bad-op", "na")
 
